@@ -613,7 +613,8 @@ Fixpoint spec_ereg_ops (encs : list (bytes * (nat * bool))) (ks : list bytes) (i
         let exp := if is_nil name then SL [SZ 1; SZ 2; SL []; enc_keys ks]
                    else match spec_enc encs name with
                         | None => SL [SZ 1; SZ 3; SL []; enc_keys ks]
-                        | Some (cid, _) => SL [SZ 1; SZ 0; SL (if Nat.leb 2 cid then [of_nat cid] else []); enc_keys ks]
+                        | Some (cid, true) => SL [SZ 1; SZ 0; SL (if Nat.leb 2 cid then [of_nat cid] else []); enc_keys ks]
+                        | Some (cid, false) => SL [SZ 1; SZ 4; SL [of_nat cid]; enc_keys ks]
                         end in
         sx_eqb ob exp && spec_ereg_ops encs ks (S id) t obs'
   | _, _ => false
